@@ -485,7 +485,11 @@ class Exec(object):
             x = const('x!', INT)
             e = app(fn_, (x,), INT)
             self.root(ZERO)
-            self.ctx.assume(forall([x], and_(eq(app(fn_ + '~', (e,), INT), x), self.addr_range(e, far), eq(app('root', (e,), INT), app('root', (x,), INT))), [e]))
+            # (addresses of different fields differ: each address function has its own tag)
+            self.ctx.declare_fun('atag', (INT,), INT)
+            self.ctx.sub_tags = getattr(self.ctx, 'sub_tags', 0) + 1
+            self.ctx.assume(forall([x], and_(eq(app(fn_ + '~', (e,), INT), x), self.addr_range(e, far), eq(app('root', (e,), INT), app('root', (x,), INT)),
+                                             eq(app('atag', (e,), INT), I(self.ctx.sub_tags))), [e]))
         return app(fn_, (p,), INT)
 
     def is_far(self, a):
